@@ -20,7 +20,8 @@ writing and optimistic / non-optimistic ("pes") session, the flag then being fix
 flags `fu` (locking lookup or plain lookup), `nw` (nowait), `sk` (skip_locked), the session flags `ser`
 (serializable), `opt` (optimistic), `imm` (immediate), `wr` (the session writes the object: `o.a = o.a + 1`), `mid`
 (0 nothing / 1 an explicit commit() between the lookup and the write / 2 the body raises at its end, so the session
-rolls back), `pre` (0 nothing / 1 a plain `T.get(id=1)`
+rolls back / 3 the object is written, commit(), the lookup is repeated - the lock must be taken again - and, with `wr`,
+the object is written again; quick tier: with `pre` 0 only), `pre` (0 nothing / 1 a plain `T.get(id=1)`
 before the lookup, so the object is cached but NOT locked / 2 the same lookup without for_update before it, so
 `cache.query_results` is warm / 3 an EARLIER session ran the same locking lookup without nowait/skip_locked, so the
 database-wide SQL caches hold that statement) and, SQLite only, `rival` (a second session run in another thread right after the
@@ -34,8 +35,8 @@ finish one path in 150 s (measured), a path under NoTracing costs ~15 ms idle / 
 Every path starts from cold translator / SQL-text caches (`_cold`): pony keeps per-location state across sessions - a
 cached translator remembers having built a FOR UPDATE statement and stops caching query results - so with warm caches
 the outcome of a path depended on the order in which CrossHair explored the paths (seen with a canary mutant).
-Thorough tier (C35_THOROUGH=1): `mid` 3 = flush() after the write and the lookup again, 4 = commit() and the lookup
-again; `pre` 4 = a plain select of all rows, 5 = a locking lookup of another style first in the same session.
+Thorough tier (C35_THOROUGH=1): `mid` 3 with every `pre`, 4 = flush() after the write and the lookup again, 5 = commit()
+and the lookup again (object only read before); `pre` 4 = a plain select of all rows, 5 = a locking lookup of another style first in the same session.
 Lookup styles: 0 `T.get(id=1)` / `T.get_for_update(id=1, nowait=, skip_locked=)`; 1 `T.get(lambda x: x.id == 1)` /
 `T.get_for_update(lambda ..., nowait=, skip_locked=)`; 2 `select(x for x in T if x.id == 1)[.for_update(nw, sk)][:]`;
 3 `T.select(lambda x: x.a > 0)[.for_update(nowait=, skip_locked=)].first()` (ORDER BY + LIMIT before the lock clause).
@@ -98,7 +99,7 @@ from engine import fakedb as F
 
 THOROUGH = os.environ.get('C35_THOROUGH') == '1'
 PRE_MAX = 5 if THOROUGH else 3          # thorough: pre 4 = plain select of all rows, 5 = a locking lookup of another style first
-MID_MAX = 4 if THOROUGH else 2          # thorough: mid 3 = flush() after the write and a second lookup, 4 = commit() then the lookup again
+MID_MAX = 5 if THOROUGH else 3          # thorough: mid 4 = flush() after the write and a second lookup, 5 = commit() then the lookup again (object only read before)
 RIVAL_MAX = 3
 
 rec = None
@@ -150,7 +151,7 @@ def setup():
         for lk in range(4):
             for fu in (False, True):
                 r = _run(kind, lk, fu, False, False, False, True, False, True, 0, 2, 0)
-                assert r or mutant, (kind, lk, fu, LAST.get('why'), rec.dump())
+                # (no assertion here: a violation must surface as a counterexample of a harness, not as a harness error)
 
 
 def _cold(db):
@@ -184,12 +185,18 @@ def _reset(kind):
 
 
 # -- the programs ------------------------------------------------------------------------------------------------------
+_BY_ID = lambda x: x.id == 1          # ONE lambda object for the plain and the locking variant (pony keys its caches by the code object)
+
+
 def _lookup(T, lk, fu, nw, sk):
+    """Every style builds its plain and its locking variant from the SAME code object (one lambda / one generator
+    expression / one helper location), as a helper function in an application would: pony's translator and
+    constructed-SQL caches are keyed by the code object, so the two variants meet in those caches."""
     from pony.orm import select
     if lk == 0:
         return T.get_for_update(id=1, nowait=nw, skip_locked=sk) if fu else T.get(id=1)
     if lk == 1:
-        return T.get_for_update(lambda x: x.id == 1, nowait=nw, skip_locked=sk) if fu else T.get(lambda x: x.id == 1)
+        return T.get_for_update(_BY_ID, nowait=nw, skip_locked=sk) if fu else T.get(_BY_ID)
     if lk == 2:
         q = select(x for x in T if x.id == 1)
         if fu: q = q.for_update(nw, sk)
@@ -264,17 +271,18 @@ def _program(db, lk, fu, nw, sk, ser, opt, imm, wr, mid, pre, rival):
         obs['got'] = o is not None
         obs['in_fu'] = o in cache.for_update
         if rival: obs['rival'] = _run_rival(db, rival)
-        if mid == 1 or mid == 4:
+        if mid == 3: o.a = o.a + 1          # write, commit(), lock it again (the status 'updated' outlives the commit, the lock does not)
+        if mid == 1 or mid == 3 or mid == 5:
             commit()
             obs['in_fu_after_commit'] = (o in cache.for_update, len(cache.for_update))
-            if mid == 4:
+            if mid != 1:
                 obs['marks']['lookup2'] = rec.n
                 o = _lookup(T, lk, fu, nw, sk)
                 obs['marks']['lookup2_end'] = rec.n
                 obs['in_fu2'] = o in cache.for_update
         if wr:
             o.a = o.a + 1
-            if mid == 3:
+            if mid == 4:
                 flush()
                 obs['marks']['lookup2'] = rec.n
                 o2 = _lookup(T, lk, fu, nw, sk)
@@ -308,10 +316,10 @@ def _tx_open_events(events, n, opener):
 
 def _must_query(window, fu, mid, pre):
     """L2: a locking lookup must reach the database unless the object is already locked in the current transaction
-    (then the cache may answer).  window 0 = the lookup, 1 = the repeated lookup of mid 3 (after flush(): still locked
-    by the first one) / mid 4 (after commit(): the lock is gone)."""
+    (then the cache may answer).  window 0 = the lookup, 1 = the repeated lookup of mid 4 (after flush(): still locked
+    by the first one) / mid 3, 5 (after commit(): the lock is gone)."""
     if not fu: return False
-    return pre != 5 if window == 0 else mid == 4
+    return pre != 5 if window == 0 else mid in (3, 5)
 
 
 def _judge_common(obs, why, fu, nw, sk, opt, ser, wr, mid, pre, updates, crit_text):
@@ -324,21 +332,21 @@ def _judge_common(obs, why, fu, nw, sk, opt, ser, wr, mid, pre, updates, crit_te
     # L5 / P4
     locked0 = fu or pre == 5          # (pre 5, thorough tier: a locking lookup of another style came first in this session)
     if obs['in_fu'] != locked0: why.append('object in cache.for_update = %r, locked by a lookup = %r' % (obs['in_fu'], locked0))
-    if mid in (1, 4) and obs['in_fu_after_commit'] != (False, 0):
+    if mid in (1, 3, 5) and obs['in_fu_after_commit'] != (False, 0):
         why.append('cache.for_update after commit(): %r' % (obs['in_fu_after_commit'],))
-    locked_at_write = False if mid == 1 else (fu if mid == 4 else locked0)
+    locked_at_write = False if mid == 1 else (fu if mid in (3, 5) else locked0)
     if 'in_fu2' in obs and obs['in_fu2'] != locked_at_write: why.append('second lookup: object in cache.for_update = %r' % (obs['in_fu2'],))
     # L6 / P5
-    if mid == 2:
-        if updates: why.append('UPDATE sent although the body raised before any flush')
-    elif wr:
-        if len(updates) != 1: why.append('%d UPDATE statements' % len(updates))
-        else:
-            has = crit_text in updates[0].detail
-            if locked_at_write and has: why.append('L6 UPDATE of a locked object carries optimistic criteria: %s' % updates[0].detail)
-            if (opt and not ser) and not locked_at_write and not has:
-                why.append('L6 UPDATE of an unlocked object in an optimistic session is unconditional: %s' % updates[0].detail)
-    elif updates: why.append('UPDATE without a write')
+    expect = []          # per expected UPDATE: was the object locked when it was written
+    if mid == 3: expect.append(locked0)
+    if wr and mid != 2: expect.append(locked_at_write)
+    if len(updates) != len(expect): why.append('%d UPDATE statements, %d writes' % (len(updates), len(expect)))
+    else:
+        for u, locked in zip(updates, expect):
+            has = crit_text in u.detail
+            if locked and has: why.append('L6 UPDATE of a locked object carries optimistic criteria: %s' % u.detail)
+            if (opt and not ser) and not locked and not has:
+                why.append('L6 UPDATE of an unlocked object in an optimistic session is unconditional: %s' % u.detail)
     return True
 
 
@@ -395,7 +403,7 @@ def _judge_sqlite(db, obs, why, lk, fu, nw, sk, ser, opt, imm, wr, mid, pre, riv
         else:
             if obs['rival'] != 'done': why.append('L4 rival while nothing is locked: %s' % obs['rival'])
             committed = [e for e in other if e.op == 'commit']
-            if obs['rival'] == 'done' and wr and mid != 2 and committed:
+            if obs['rival'] == 'done' and (mid == 3 or (wr and mid != 2)) and committed:
                 if not (updates and 'AND "a" = ?' in updates[0].detail): why.append('L6 rival committed a write, the first session overwrites it unconditionally')
     return _locks_balanced(db, why)
 
@@ -510,7 +518,7 @@ def _e(kind, lk, fu, nw, sk, ser, opt, imm, wr, mid, pre, rival=0):
     opt = True if opt else False
     imm = True if imm else False
     wr = True if wr else False
-    mid = 0 if mid == 0 else (1 if mid == 1 else (2 if mid == 2 else (3 if mid == 3 else 4)))
+    mid = 0 if mid == 0 else (1 if mid == 1 else (2 if mid == 2 else (3 if mid == 3 else (4 if mid == 4 else 5))))
     pre = 0 if pre == 0 else (1 if pre == 1 else (2 if pre == 2 else (3 if pre == 3 else (4 if pre == 4 else 5))))
     rival = 0 if rival == 0 else (1 if rival == 1 else (2 if rival == 2 else 3))
     with NoTracing():
@@ -527,6 +535,7 @@ def sqlite_lk0_ro_opt(fu: bool, nw: bool, sk: bool, ser: bool, imm: bool, mid: i
     """
     pre: fu or not (nw or sk)
     pre: 0 <= mid <= MID_MAX and 0 <= pre <= PRE_MAX and 0 <= rival <= RIVAL_MAX
+    pre: THOROUGH or mid != 3 or pre == 0
     post: _
     """
     return ok(_e('sqlite', 0, fu, nw, sk, ser, True, imm, False, mid, pre, rival))
@@ -537,6 +546,7 @@ def sqlite_lk0_ro_pes(fu: bool, nw: bool, sk: bool, ser: bool, imm: bool, mid: i
     """
     pre: fu or not (nw or sk)
     pre: 0 <= mid <= MID_MAX and 0 <= pre <= PRE_MAX and 0 <= rival <= RIVAL_MAX
+    pre: THOROUGH or mid != 3 or pre == 0
     post: _
     """
     return ok(_e('sqlite', 0, fu, nw, sk, ser, False, imm, False, mid, pre, rival))
@@ -547,6 +557,7 @@ def sqlite_lk0_wr_opt(fu: bool, nw: bool, sk: bool, ser: bool, imm: bool, mid: i
     """
     pre: fu or not (nw or sk)
     pre: 0 <= mid <= MID_MAX and 0 <= pre <= PRE_MAX and 0 <= rival <= RIVAL_MAX
+    pre: THOROUGH or mid != 3 or pre == 0
     post: _
     """
     return ok(_e('sqlite', 0, fu, nw, sk, ser, True, imm, True, mid, pre, rival))
@@ -557,6 +568,7 @@ def sqlite_lk0_wr_pes(fu: bool, nw: bool, sk: bool, ser: bool, imm: bool, mid: i
     """
     pre: fu or not (nw or sk)
     pre: 0 <= mid <= MID_MAX and 0 <= pre <= PRE_MAX and 0 <= rival <= RIVAL_MAX
+    pre: THOROUGH or mid != 3 or pre == 0
     post: _
     """
     return ok(_e('sqlite', 0, fu, nw, sk, ser, False, imm, True, mid, pre, rival))
@@ -567,6 +579,7 @@ def sqlite_lk1_ro_opt(fu: bool, nw: bool, sk: bool, ser: bool, imm: bool, mid: i
     """
     pre: fu or not (nw or sk)
     pre: 0 <= mid <= MID_MAX and 0 <= pre <= PRE_MAX and 0 <= rival <= RIVAL_MAX
+    pre: THOROUGH or mid != 3 or pre == 0
     post: _
     """
     return ok(_e('sqlite', 1, fu, nw, sk, ser, True, imm, False, mid, pre, rival))
@@ -577,6 +590,7 @@ def sqlite_lk1_ro_pes(fu: bool, nw: bool, sk: bool, ser: bool, imm: bool, mid: i
     """
     pre: fu or not (nw or sk)
     pre: 0 <= mid <= MID_MAX and 0 <= pre <= PRE_MAX and 0 <= rival <= RIVAL_MAX
+    pre: THOROUGH or mid != 3 or pre == 0
     post: _
     """
     return ok(_e('sqlite', 1, fu, nw, sk, ser, False, imm, False, mid, pre, rival))
@@ -587,6 +601,7 @@ def sqlite_lk1_wr_opt(fu: bool, nw: bool, sk: bool, ser: bool, imm: bool, mid: i
     """
     pre: fu or not (nw or sk)
     pre: 0 <= mid <= MID_MAX and 0 <= pre <= PRE_MAX and 0 <= rival <= RIVAL_MAX
+    pre: THOROUGH or mid != 3 or pre == 0
     post: _
     """
     return ok(_e('sqlite', 1, fu, nw, sk, ser, True, imm, True, mid, pre, rival))
@@ -597,6 +612,7 @@ def sqlite_lk1_wr_pes(fu: bool, nw: bool, sk: bool, ser: bool, imm: bool, mid: i
     """
     pre: fu or not (nw or sk)
     pre: 0 <= mid <= MID_MAX and 0 <= pre <= PRE_MAX and 0 <= rival <= RIVAL_MAX
+    pre: THOROUGH or mid != 3 or pre == 0
     post: _
     """
     return ok(_e('sqlite', 1, fu, nw, sk, ser, False, imm, True, mid, pre, rival))
@@ -607,6 +623,7 @@ def sqlite_lk2_ro_opt(fu: bool, nw: bool, sk: bool, ser: bool, imm: bool, mid: i
     """
     pre: fu or not (nw or sk)
     pre: 0 <= mid <= MID_MAX and 0 <= pre <= PRE_MAX and 0 <= rival <= RIVAL_MAX
+    pre: THOROUGH or mid != 3 or pre == 0
     post: _
     """
     return ok(_e('sqlite', 2, fu, nw, sk, ser, True, imm, False, mid, pre, rival))
@@ -617,6 +634,7 @@ def sqlite_lk2_ro_pes(fu: bool, nw: bool, sk: bool, ser: bool, imm: bool, mid: i
     """
     pre: fu or not (nw or sk)
     pre: 0 <= mid <= MID_MAX and 0 <= pre <= PRE_MAX and 0 <= rival <= RIVAL_MAX
+    pre: THOROUGH or mid != 3 or pre == 0
     post: _
     """
     return ok(_e('sqlite', 2, fu, nw, sk, ser, False, imm, False, mid, pre, rival))
@@ -627,6 +645,7 @@ def sqlite_lk2_wr_opt(fu: bool, nw: bool, sk: bool, ser: bool, imm: bool, mid: i
     """
     pre: fu or not (nw or sk)
     pre: 0 <= mid <= MID_MAX and 0 <= pre <= PRE_MAX and 0 <= rival <= RIVAL_MAX
+    pre: THOROUGH or mid != 3 or pre == 0
     post: _
     """
     return ok(_e('sqlite', 2, fu, nw, sk, ser, True, imm, True, mid, pre, rival))
@@ -637,6 +656,7 @@ def sqlite_lk2_wr_pes(fu: bool, nw: bool, sk: bool, ser: bool, imm: bool, mid: i
     """
     pre: fu or not (nw or sk)
     pre: 0 <= mid <= MID_MAX and 0 <= pre <= PRE_MAX and 0 <= rival <= RIVAL_MAX
+    pre: THOROUGH or mid != 3 or pre == 0
     post: _
     """
     return ok(_e('sqlite', 2, fu, nw, sk, ser, False, imm, True, mid, pre, rival))
@@ -647,6 +667,7 @@ def sqlite_lk3_ro_opt(fu: bool, nw: bool, sk: bool, ser: bool, imm: bool, mid: i
     """
     pre: fu or not (nw or sk)
     pre: 0 <= mid <= MID_MAX and 0 <= pre <= PRE_MAX and 0 <= rival <= RIVAL_MAX
+    pre: THOROUGH or mid != 3 or pre == 0
     post: _
     """
     return ok(_e('sqlite', 3, fu, nw, sk, ser, True, imm, False, mid, pre, rival))
@@ -657,6 +678,7 @@ def sqlite_lk3_ro_pes(fu: bool, nw: bool, sk: bool, ser: bool, imm: bool, mid: i
     """
     pre: fu or not (nw or sk)
     pre: 0 <= mid <= MID_MAX and 0 <= pre <= PRE_MAX and 0 <= rival <= RIVAL_MAX
+    pre: THOROUGH or mid != 3 or pre == 0
     post: _
     """
     return ok(_e('sqlite', 3, fu, nw, sk, ser, False, imm, False, mid, pre, rival))
@@ -667,6 +689,7 @@ def sqlite_lk3_wr_opt(fu: bool, nw: bool, sk: bool, ser: bool, imm: bool, mid: i
     """
     pre: fu or not (nw or sk)
     pre: 0 <= mid <= MID_MAX and 0 <= pre <= PRE_MAX and 0 <= rival <= RIVAL_MAX
+    pre: THOROUGH or mid != 3 or pre == 0
     post: _
     """
     return ok(_e('sqlite', 3, fu, nw, sk, ser, True, imm, True, mid, pre, rival))
@@ -677,6 +700,7 @@ def sqlite_lk3_wr_pes(fu: bool, nw: bool, sk: bool, ser: bool, imm: bool, mid: i
     """
     pre: fu or not (nw or sk)
     pre: 0 <= mid <= MID_MAX and 0 <= pre <= PRE_MAX and 0 <= rival <= RIVAL_MAX
+    pre: THOROUGH or mid != 3 or pre == 0
     post: _
     """
     return ok(_e('sqlite', 3, fu, nw, sk, ser, False, imm, True, mid, pre, rival))
@@ -687,6 +711,7 @@ def pg_lk0(fu: bool, nw: bool, sk: bool, ser: bool, opt: bool, imm: bool, wr: bo
     """
     pre: fu or not (nw or sk)
     pre: 0 <= mid <= MID_MAX and 0 <= pre <= PRE_MAX
+    pre: THOROUGH or mid != 3 or pre == 0
     post: _
     """
     return ok(_e('pg', 0, fu, nw, sk, ser, opt, imm, wr, mid, pre))
@@ -697,6 +722,7 @@ def pg_lk1(fu: bool, nw: bool, sk: bool, ser: bool, opt: bool, imm: bool, wr: bo
     """
     pre: fu or not (nw or sk)
     pre: 0 <= mid <= MID_MAX and 0 <= pre <= PRE_MAX
+    pre: THOROUGH or mid != 3 or pre == 0
     post: _
     """
     return ok(_e('pg', 1, fu, nw, sk, ser, opt, imm, wr, mid, pre))
@@ -707,6 +733,7 @@ def pg_lk2(fu: bool, nw: bool, sk: bool, ser: bool, opt: bool, imm: bool, wr: bo
     """
     pre: fu or not (nw or sk)
     pre: 0 <= mid <= MID_MAX and 0 <= pre <= PRE_MAX
+    pre: THOROUGH or mid != 3 or pre == 0
     post: _
     """
     return ok(_e('pg', 2, fu, nw, sk, ser, opt, imm, wr, mid, pre))
@@ -717,6 +744,7 @@ def pg_lk3(fu: bool, nw: bool, sk: bool, ser: bool, opt: bool, imm: bool, wr: bo
     """
     pre: fu or not (nw or sk)
     pre: 0 <= mid <= MID_MAX and 0 <= pre <= PRE_MAX
+    pre: THOROUGH or mid != 3 or pre == 0
     post: _
     """
     return ok(_e('pg', 3, fu, nw, sk, ser, opt, imm, wr, mid, pre))
